@@ -274,9 +274,11 @@ impl Exec {
                 }
                 "sys" => {
                     let before = sys::get_rules();
-                    let rule = Arc::new(sys::Rule { id: id.clone(), metric_type: sys::MetricType::Concurrency, threshold: 1000000.0, ..Default::default() });
-                    sys::append_rule(rule);
-                    if !sys::get_rules().iter().any(|r| r.id == id) {
+                    // system rules have no resource of their own: a threshold no case uses keeps the probe rule apart from the
+                    // case's rules (an equal rule under another id would rightly make the append a no-op)
+                    let rule = Arc::new(sys::Rule { id: id.clone(), metric_type: sys::MetricType::Concurrency, threshold: 987654.5, ..Default::default() });
+                    sys::append_rule(Arc::clone(&rule));
+                    if !sys::get_rules().iter().any(|r| r.id == id || **r == *rule) {
                         return Err("probe rule not reported".into());
                     }
                     sys::load_rules(before);
